@@ -549,6 +549,14 @@ pub fn cmd_check(prop: &str, tier: &str) -> i32 {
             }
         }
     }
+    // second engine
+    let mut miri_stats: Option<Value> = None;
+    if (prop == "C07" || prop == "C04") && std::env::var("VERIF_NO_MIRI").is_err() {
+        let (mv, ms, merr) = crate::miri::stage(prop, &tier, seed);
+        vios.extend(mv);
+        miri_stats = Some(ms);
+        harness_err |= merr;
+    }
     let wall = t0.elapsed().as_secs_f64();
     // verdict
     let known = load_known();
@@ -594,7 +602,7 @@ pub fn cmd_check(prop: &str, tier: &str) -> i32 {
         let _ = std::fs::remove_file(f);
     }
     let wall = t0.elapsed().as_secs_f64();
-    write_evidence(&def, prop, &tier, seed, runs, workers, &total, wall, n_viol, &known_hits, distinct_nt, distinct_sc);
+    write_evidence(&def, prop, &tier, seed, runs, workers, &total, wall, n_viol, &known_hits, distinct_nt, distinct_sc, miri_stats);
     println!(
         "{}: {} runs, {} distinct non-trivial, {} decisions, {:.1}s wall, {} violation(s), {} known finding(s), inconclusive: {:?}",
         prop,
@@ -615,7 +623,7 @@ pub fn cmd_check(prop: &str, tier: &str) -> i32 {
     0
 }
 
-fn write_evidence(def: &check::CheckDef, prop: &str, tier: &str, seed: u64, runs: u64, workers: u64, t: &WStats, wall: f64, n_viol: u64, known_hits: &[String], distinct_nt: u64, distinct_sc: u64) {
+fn write_evidence(def: &check::CheckDef, prop: &str, tier: &str, seed: u64, runs: u64, workers: u64, t: &WStats, wall: f64, n_viol: u64, known_hits: &[String], distinct_nt: u64, distinct_sc: u64, miri_stats: Option<Value>) {
     let probes: BTreeMap<String, u64> = rt::probe::PROBE_NAMES
         .iter()
         .map(|(id, name)| (name.to_string(), t.probes.get(*id as usize).copied().unwrap_or(0)))
@@ -657,6 +665,7 @@ fn write_evidence(def: &check::CheckDef, prop: &str, tier: &str, seed: u64, runs
             "monitored_cross_task_accesses": t.hb_cross,
             "inconclusive_runs(other property's oracle fired)": t.inconclusive,
             "known_findings_hit": known_hits,
+            "second_engine": miri_stats,
             "real_code": ["kanal src/lib.rs", "src/internal.rs", "src/signal.rs", "src/future.rs", "src/pointer.rs", "src/mutex.rs", "src/backoff.rs", "src/error.rs", "lock_api", "alloc::collections::VecDeque", "alloc::sync::Arc"],
             "stubbed": ["core::sync::atomic::* (scheduling point + happens-before bookkeeping)", "std::thread::{park,unpark,current,yield_now,sleep,available_parallelism}", "std::time::Instant (virtual clock)", "std::hint::spin_loop (no-op)", "executor and wakers (harness executor instead of tokio)", "OS scheduler (seeded scheduler over corosensei coroutines)"]
         },
@@ -680,6 +689,11 @@ pub fn cmd_replay(path: &str) -> i32 {
             return 2;
         }
     };
+    if let Ok(vj) = serde_json::from_str::<Value>(&s) {
+        if vj["engine"] == "miri" {
+            return crate::miri::replay(&vj);
+        }
+    }
     let rp: Replay = match serde_json::from_str(&s) {
         Ok(r) => r,
         Err(e) => {
